@@ -3,6 +3,8 @@ from harness.core import pipeline, gallina as G
 from harness.jsonclass_support import world as W, worldgen as WG
 from harness.props.c07 import WorldStream, outcome, d_outcome
 
+from harness.jsonclass_support import anchors
+
 PROP_ID = "C20"
 MANIFEST_ENTRY = {
     "text": ("Theorems (Coq, closed under the global context) over all values, class tables, handler tables (arbitrary handler "
@@ -20,7 +22,7 @@ MANIFEST_ENTRY = {
     "technique": "Coq proof over a hand-written executable model + differential correspondence check (vm_compute) + property oracle",
     "design_ref": "DESIGN.md 4/C20",
 }
-ANCHOR_RANGES = [("jsonrpclib/jsonclass.py", 123, 140), ("jsonrpclib/jsonclass.py", 146, 159), ("jsonrpclib/jsonclass.py", 161, 216)]
+ANCHOR_RANGES = anchors.func_ranges([("jsonrpclib/jsonclass.py", "dump")])
 RULE = ("generated class worlds of C07 with class-level and instance-level ignore lists (subsets of the field names plus foreign names, "
         "under the configured or another attribute name) x handler tables (0-3 entries over tuple, str, int, dict, list, user classes, "
         "datetime.date, complex, function; None entries; subclasses of handled classes) x per-call ignore lists x spellings of the "
@@ -95,8 +97,8 @@ class Custom(WorldStream):
     name = "custom"
     case_type = "nat * config * option str * option str * option (list val) * val * res val"
     check_fn = "(c20_check WS)"
-    n_worlds = {"quick": 5, "thorough": 16}
-    per_world = {"quick": 110, "thorough": 500}
+    n_worlds = {"quick": 8, "thorough": 16}
+    per_world = {"quick": 200, "thorough": 500}
 
     def setup(self):
         WorldStream.setup(self)
